@@ -169,7 +169,8 @@ theorem search_spec (levelSet : Array Nat) : ∀ (l : List Nat), (∀ i ∈ l, i
       exact ih (fun j hj => hl j (by simp [hj]))
 
 theorem fallback_spec (C : Ctx A n degree maxDeg) {s : St} (hs : Inv n maxDeg s) (hnext : s.next < n) :
-    ∃ s', fallback n degree s = .ok s' ∧ Inv n maxDeg s' ∧ s'.next = s.next + 1 := by
+    ∃ s', fallback n degree s = .ok s' ∧ Inv n maxDeg s' ∧ s'.next = s.next + 1 ∧
+      ∀ k, k < s.next → s'.perm.getD k 0 = s.perm.getD k 0 := by
   unfold fallback
   rw [search_spec _ _ (by intro i hi; simp at hi; rw [hs.lab.hls]; exact hi), Res.bind_ok]
   cases hfind : (List.range n).find? (fun i => s.levelSet.getD i 0 = 0) with
@@ -190,7 +191,7 @@ theorem fallback_spec (C : Ctx A n degree maxDeg) {s : St} (hs : Inv n maxDeg s)
     simp only [bind_def, pure_def]
     rw [wr_ok _ hpn, Res.bind_ok, wr_ok _ (by rw [hs.lab.hls]; exact hi), Res.bind_ok,
       rd_ok 0 (by rw [C.hdeg]; exact hi), Res.bind_ok, wr_ok _ hfsz, Res.bind_ok]
-    refine ⟨_, rfl, ?_, rfl⟩
+    refine ⟨_, rfl, ?_, rfl, fun k hk => getD_setIfInBounds_ne _ _ _ (by omega)⟩
     have hL : s.currentLevelSet ≠ 0 := Nat.pos_iff_ne_zero.mp hs.hcls
     refine ⟨hs.lab.step hi hl hL, hs.hns, by simp [hs.hf], hs.hnf, ?_, fun d => (hs.lnf d).step i, ?_, hdi, hs.hnm,
       hs.hcls⟩
@@ -206,7 +207,8 @@ theorem fallback_spec (C : Ctx A n degree maxDeg) {s : St} (hs : Inv n maxDeg s)
 
 theorem level_spec (C : Ctx A n degree maxDeg) (reverse : Bool) {walkFuel : Nat} (hfuel : n ≤ walkFuel) {s : St}
     (hs : Inv n maxDeg s) (hnext : s.next < n) :
-    ∃ s', level reverse A n degree walkFuel s = .ok s' ∧ Inv n maxDeg s' ∧ s.next < s'.next := by
+    ∃ s', level reverse A n degree walkFuel s = .ok s' ∧ Inv n maxDeg s' ∧ s.next < s'.next ∧
+      ∀ k, k < s.next → s'.perm.getD k 0 = s.perm.getD k 0 := by
   unfold level
   -- the reset state
   have hs0 : Inv n maxDeg
@@ -229,12 +231,15 @@ theorem level_spec (C : Ctx A n degree maxDeg) (reverse : Bool) {walkFuel : Nat}
     ⟨hI1.lab, hI1.hns, by rw [← hI1.hf]; exact hfs, hI1.hnf, hfl, hI1.lnf, hI1.chn, hI1.hnm, hI1.hnm, Nat.succ_pos _⟩
   by_cases he : s1.empty = true
   · rw [if_pos he]
-    obtain ⟨s4, h4, hI4, hn4⟩ := fallback_spec C hs3 (by
+    obtain ⟨s4, h4, hI4, hn4, hp4⟩ := fallback_spec C hs3 (by
       show s1.next < n
       rw [hE1.stay he]; exact hnext)
-    exact ⟨s4, h4, hI4, by rw [hn4]; have := hE1.next_le; exact Nat.lt_succ_of_le this⟩
+    refine ⟨s4, h4, hI4, by rw [hn4]; have := hE1.next_le; exact Nat.lt_succ_of_le this, ?_⟩
+    intro k hk
+    have h5 : s4.perm.getD k 0 = s1.perm.getD k 0 := hp4 k (Nat.lt_of_lt_of_le hk hE1.next_le)
+    rw [h5]; exact hE1.pre k hk
   · rw [if_neg he]
-    refine ⟨_, rfl, hs3, ?_⟩
+    refine ⟨_, rfl, hs3, ?_, fun k hk => hE1.pre k hk⟩
     have : s1.empty = false := by simpa using he
     rcases hE1.prog this with h | h
     · exact absurd h (by simp)
